@@ -20,6 +20,7 @@ package main
 
 import (
 	"bufio"
+	"bytes"
 	"encoding/binary"
 	"encoding/hex"
 	"encoding/json"
@@ -89,6 +90,8 @@ type jProg struct {
 	File string `json:"file"`
 }
 type jLayout struct {
+	MacToU64 []string          `json:"mac_to_u64_funcs"`
+	U64ToMac []string          `json:"u64_to_mac_funcs"`
 	Progs    []jProg           `json:"progs"`
 	CStructs []jStruct         `json:"c_structs"`
 	CMaps    []jMap            `json:"c_maps"`
@@ -117,6 +120,20 @@ func loadLayout() {
 	}
 	for _, s := range layout.CStructs {
 		cstructs[s.Name] = s
+	}
+	// the harness must know every MAC conversion the translator found in the repository, and no other
+	for _, n := range layout.MacToU64 {
+		if _, ok := macToU64[n]; !ok {
+			fatal("the repository has a new MAC->uint64 conversion %s that the harness table (cmd/layoutbytes/macfuncs.go) does not know", n)
+		}
+	}
+	for _, n := range layout.U64ToMac {
+		if _, ok := u64ToMac[n]; !ok {
+			fatal("the repository has a new uint64->MAC conversion %s that the harness table (cmd/layoutbytes/macfuncs.go) does not know", n)
+		}
+	}
+	if len(layout.MacToU64) != len(macToU64) || len(layout.U64ToMac) != len(u64ToMac) {
+		fatal("MAC conversions in the repository %v %v differ from the harness table: a conversion was removed or renamed", layout.MacToU64, layout.U64ToMac)
 	}
 }
 
@@ -592,6 +609,13 @@ func l4(proto, sport, dport int) []byte {
 	return append(h, []byte("payload-")...)
 }
 
+// dhcpFrameCh: an untagged DISCOVER with source MAC `src` and the 16-byte chaddr field `ch`
+func dhcpFrameCh(src, ch, opts []byte) []byte {
+	f := dhcpFrame(src, nil, opts)
+	copy(f[14+20+8+28:14+20+8+44], ch)
+	return f
+}
+
 func dhcpFrame(mac []byte, tags [][2]int, opts []byte) []byte {
 	d := []byte{1, 1, 6, 0, 0x12, 0x34, 0x56, 0x78, 0, 0, 0, 0}
 	d = append(d, make([]byte, 16)...) // ciaddr yiaddr siaddr giaddr
@@ -689,6 +713,16 @@ func (r *run) Do(op string) string {
 	return "badop"
 }
 
+// safeMac runs a conversion of the real code; an index-out-of-range panic on a short address is an observation
+func safeMac(f func() string) (out string) {
+	defer func() {
+		if recover() != nil {
+			out = "panic"
+		}
+	}()
+	return f()
+}
+
 func le(x uint64, n int) []byte {
 	b := make([]byte, n)
 	for i := 0; i < n; i++ {
@@ -776,6 +810,26 @@ func (r *run) doKf(f []string) string {
 		}
 		ev, _ := cRun("dhcp_fastpath", "dhcp_fastpath_prog", dhcpFrame([]byte{2, 0, 0, 0, 0, 9}, tags, append([]byte{53, 1, 1, 255}, make([]byte, 76)...)))
 		return "go=" + hx0(k) + " c=" + first(ev, "L:vlan_subscriber_pools")
+	case "macn":
+		// kf macn <hardware address, 0..20 bytes>: EVERY Go MAC->uint64 conversion of the repository and its reverse,
+		// next to the key the programs derive (mac_to_u64 always reads six bytes: chaddr / h_source, zero padded)
+		mac := mustHex(f[2])
+		var parts []string
+		for _, n := range layout.MacToU64 {
+			parts = append(parts, "go:"+n+"="+safeMac(func() string { return hx0(le(macToU64[n](net.HardwareAddr(mac)), 8)) }))
+		}
+		for _, n := range layout.U64ToMac {
+			parts = append(parts, "back:"+n+"="+safeMac(func() string {
+				return hx0(u64ToMac[n](macToU64[macPair[n]](net.HardwareAddr(mac))))
+			}))
+		}
+		six := make([]byte, 6)
+		copy(six, mac)
+		ch := make([]byte, 16)
+		copy(ch, mac)
+		evD, _ := cRun("dhcp_fastpath", "dhcp_fastpath_prog", dhcpFrameCh(six, ch, append([]byte{53, 1, 1, 255}, make([]byte, 76)...)))
+		evA, _ := cRun("antispoof", "antispoof_ingress", ethFrame([]byte{2, 0, 0, 0, 0, 1}, six, nil, ipv4([]byte{10, 0, 0, 1}, []byte{10, 0, 0, 2}, 17, l4(17, 1, 2))))
+		return strings.Join(parts, " ") + " c.dhcp=" + first(evD, "L:subscriber_pools") + " c.antispoof=" + first(evA, "L:subscriber_bindings")
 	case "ip":
 		ip := mustHex(f[2])
 		if len(ip) != 4 {
@@ -1900,6 +1954,39 @@ func genKeySweeps(r *rand.Rand, tier string, emit func([]string)) {
 	}
 	for _, m := range [][]byte{{0, 0, 0, 0, 0, 0}, {0xff, 0xff, 0xff, 0xff, 0xff, 0xff}, {0, 0, 0, 0, 0, 1}, {0x80, 0, 0, 0, 0, 0}} {
 		ops = append(ops, "kf mac "+h(m))
+	}
+	flush()
+	// hardware addresses of every length 0..20 (6 mostly; 7, 8 = EUI-64, 16, 20 = IPoIB; short ones) through EVERY Go
+	// conversion of the repository and back
+	macn := func(m []byte) {
+		if len(m) == 0 {
+			ops = append(ops, "kf macn -")
+		} else {
+			ops = append(ops, "kf macn "+h(m))
+		}
+	}
+	for n := 0; n <= 20; n++ {
+		reps := 12
+		if n == 6 {
+			reps = 200
+		}
+		if n == 7 || n == 8 || n == 16 || n == 20 {
+			reps = 60
+		}
+		for k := 0; k < reps; k++ {
+			m := make([]byte, n)
+			r.Read(m)
+			macn(m)
+		}
+		macn(bytes.Repeat([]byte{0xff}, n))
+		macn(make([]byte, n))
+		if n > 6 { // only the tail differs from a 6-byte address / only the tail is non-zero
+			m := make([]byte, n)
+			m[n-1] = 1
+			macn(m)
+			m2 := append([]byte{0, 0x11, 0x22, 0x33, 0x44, 0x55}, bytes.Repeat([]byte{0xaa}, n-6)...)
+			macn(m2)
+		}
 	}
 	flush()
 	// VLAN pair: every S-tag, every C-tag, all PCP/DEI combinations on a few tags
